@@ -34,7 +34,8 @@ RULE = ('plan = 2-6 objects (seven stored types; values empty/1 byte/'
         'client of a seeded version. Non-trivial: an object with >= 2 '
         'optional fields was read back after >= 1 restart. Distinct = '
         'trace digest.')
-PROBES = ['restart', 'kill_restart', 'wrapped_key_roundtrip',
+PROBES = ['proxy_register_with_template', 'group_changed_on_one_object',
+          'restart', 'kill_restart', 'wrapped_key_roundtrip',
           'split_key_roundtrip', 'non_ascii_name', 'empty_mask',
           'full_mask', 'large_value', 'server_generated', 'read_under_2_0',
           'read_under_1_0', 'chunked_transport']
@@ -191,7 +192,26 @@ def generate(rng, tier, index):
             if y < 0.72:
                 st = {'do': 'register', 'label': lab, 'ver': list(ver),
                       'spec': gen_spec(r, r.choice(gen.OTYPES))}
-            elif y < 0.86:
+            elif y < 0.80:
+                # KMIPProxy.register with an explicit template: attributes
+                # ProxyKmipClient.register cannot send (groups, name types,
+                # sensitive flag)
+                spec = gen_spec(r, r.choice(gen.OTYPES))
+                spec['names'] = [[nm, r.choice([1, 1, 2])]
+                                 for nm in spec['names']]
+                if spec['otype'] != 'OpaqueData' or r.random() < 0.5:
+                    spec['groups'] = [r.choice(['grp-a', 'grp-b', 'grp-c'])
+                                      for _ in range(r.choice([0, 1, 1, 2]))]
+                    spec['groups'] = list(dict.fromkeys(spec['groups']))
+                if ver >= (1, 4) and r.random() < 0.5:
+                    spec['sensitive'] = r.random() < 0.6
+                if r.random() < 0.5:
+                    spec['app'] = [['ns%d' % r.randrange(3),
+                                    'data%d' % r.randrange(99)]
+                                   for _ in range(r.choice([1, 2]))]
+                st = {'do': 'proxy_register', 'label': lab,
+                      'ver': list(ver), 'spec': spec}
+            elif y < 0.88:
                 st = {'do': 'create', 'label': lab, 'ver': list(ver),
                       'alg': 3, 'len': r.choice([128, 192, 256]),
                       'masks': gen_masks(r) or [4, 8],
@@ -206,6 +226,11 @@ def generate(rng, tier, index):
                     max(ver, (1, 0))), 'len': r.choice([128, 256])}
             labels.append(lab)
             steps.append(st)
+        elif x < 0.41 and labels:
+            steps.append({'do': 'modify_group', 'label': r.choice(labels),
+                          'index': r.choice([0, 0, 1]),
+                          'how': r.choice(['modify', 'modify', 'delete']),
+                          'to': 'grp-%d' % r.randrange(1000)})
         elif x < 0.45:
             steps.append({'do': 'restart'})
         elif x < 0.58:
@@ -418,14 +443,17 @@ def expected_attrs(e, read_ver):
     if rv < (2, 0):
         out.append(['Operation Policy Name', 0, 'default'])
     if rv >= (1, 4):
-        out.append(['Sensitive', 0, False])
+        out.append(['Sensitive', 0, bool(e.get('sensitive') or False)])
+    for i, g in enumerate(e.get('groups') or []):
+        out.append(['Object Group', i, g])
     if e['otype'] in ('SymmetricKey', 'PublicKey', 'PrivateKey', 'SplitKey'):
         out.append(['Cryptographic Algorithm', 0, e['alg']])
         out.append(['Cryptographic Length', 0, e['len']])
     if e['otype'] == 'Certificate':
         out.append(['Certificate Type', 0, 1])
+    nts = e.get('name_types') or []
     for i, nm in enumerate(e.get('names') or []):
-        out.append(['Name', i, [nm, 1]])
+        out.append(['Name', i, [nm, nts[i] if i < len(nts) else 1]])
     for i, ap in enumerate(e.get('app') or []):
         out.append(['Application Specific Information', i, list(ap)])
     return sorted(out, key=lambda x: (x[0], x[1]))
@@ -492,6 +520,85 @@ def execute(plan):
                         probes['full_mask'] += 1
                     if len(spec['value']) >= 2048:
                         probes['large_value'] += 1
+                elif do == 'proxy_register':
+                    from kmip.core import attributes as cattr
+                    from kmip.core import objects as cobj
+                    from kmip.core.factories import attributes as caf
+                    spec = st['spec']
+                    flat = dict(spec)
+                    flat['names'] = [n[0] for n in spec['names']]
+                    try:
+                        obj = build_pie(flat)
+                    except Exception as e:
+                        trace.append(['unconstructible', type(e).__name__])
+                        continue
+                    c = cl(ver, st.get('chunks'))
+                    fac = caf.AttributeFactory()
+                    AT = enums.AttributeType
+                    at = []
+                    if 'masks' in spec:
+                        at.append(fac.create_attribute(
+                            AT.CRYPTOGRAPHIC_USAGE_MASK,
+                            [enums.CryptographicUsageMask(m)
+                             for m in spec['masks']]))
+                    for i, (nm, nt) in enumerate(spec['names']):
+                        at.append(fac.create_attribute(
+                            AT.NAME, cattr.Name.create(
+                                nm, enums.NameType(nt)), i))
+                    for i, g in enumerate(spec.get('groups') or []):
+                        at.append(fac.create_attribute(AT.OBJECT_GROUP, g,
+                                                       i))
+                    for i, ap in enumerate(spec.get('app') or []):
+                        at.append(fac.create_attribute(
+                            AT.APPLICATION_SPECIFIC_INFORMATION,
+                            {'application_namespace': ap[0],
+                             'application_data': ap[1]}, i))
+                    if spec.get('sensitive') is not None:
+                        at.append(fac.create_attribute(AT.SENSITIVE,
+                                                       spec['sensitive']))
+                    t = int(W.clock.now)
+                    res = c.proxy.register(
+                        obj.object_type, cobj.TemplateAttribute(
+                            attributes=at),
+                        c.object_factory.convert(obj))
+                    if res.result_status.value != \
+                            enums.ResultStatus.SUCCESS:
+                        trace.append(['refused', do,
+                                      str(res.result_reason.value),
+                                      res.result_message.value])
+                        continue
+                    e = dict(flat)
+                    e.update({'uid': res.uuid, 'created_at': t,
+                              'object_type': OT_NUM[spec['otype']],
+                              'proj': expected_projection(flat),
+                              'name_types': [n[1] for n in spec['names']],
+                              'stored_since_restart': restarts_seen})
+                    if spec['otype'] in ('SymmetricKey', 'PublicKey',
+                                         'PrivateKey', 'SplitKey'):
+                        e['alg'], e['len'] = spec['alg'], spec['len']
+                    known[st['label']] = e
+                    probes['proxy_register_with_template'] += 1
+                elif do == 'modify_group':
+                    e = known.get(st['label'])
+                    if e is None or not e.get('groups') or \
+                            st['index'] >= len(e['groups']):
+                        continue
+                    i = st['index']
+                    if st['how'] == 'modify':
+                        op = {'op': 'ModifyAttribute', 'uid': e['uid'],
+                              'attr': gen.A('Object Group', st['to'], i)}
+                    else:
+                        op = {'op': 'DeleteAttribute', 'uid': e['uid'],
+                              'name': 'Object Group', 'index': i}
+                    rp = W.request({'actor': 0, 'ver': [1, 2],
+                                    'items': [op]})
+                    if rp is not None and rp.items and \
+                            rp.items[0]['status'] == 0:
+                        if st['how'] == 'modify':
+                            e['groups'][i] = st['to']
+                        else:
+                            e['groups'].pop(i)
+                        probes['group_changed_on_one_object'] += 1
                 elif do == 'create':
                     c = cl(ver, st.get('chunks'))
                     t = int(W.clock.now)
